@@ -54,7 +54,7 @@ type Scenario struct {
 	CNS        uint32 `json:"cNS"`
 	CDS        uint32 `json:"cDS"`
 	ChildTTL   uint32 `json:"childTTL"`
-	Child      string `json:"child"` // long | selfref | nschange | glueless
+	Child      string `json:"child"` // long | selfref | nschange | glueless | slowns
 	Deep       bool   `json:"deep"`
 	ValDelayMs int    `json:"valDelayMs"`
 	Steps      []Step `json:"steps"`
@@ -131,19 +131,25 @@ func (w *world) fillChild(z *authkit.Zone, srv *authkit.Server, pv, cv int) erro
 // validation delay on DNSKEY answers.
 func (w *world) parentHook(edge string) func(*authkit.Exchange) {
 	return func(ex *authkit.Exchange) {
+		// the validation delay holds back every DNSKEY-type response of this server -- also a REFERRAL
+		// given in answer to a DNSKEY question (a sub-query that had to walk down again): the referral
+		// is observed when it leaves, not when the question arrived
+		var d time.Duration
+		if w.sc.ValDelayMs > 0 && edge == "c" && ex.Q.Qtype == dns.TypeDNSKEY {
+			d = time.Duration(w.sc.ValDelayMs) * time.Millisecond
+		}
 		if ex.Truth.Kind == "referral" && ex.Resp != nil {
 			for _, rr := range ex.Resp.Extra {
 				if a, ok := rr.(*dns.A); ok {
 					w.mu.Lock()
 					if v, ok := w.glueVer[a.A.String()]; ok {
-						w.refs = append(w.refs, refEvent{At: time.Now(), Edge: edge, PV: v[0], CV: v[1]})
+						w.refs = append(w.refs, refEvent{At: time.Now().Add(d), Edge: edge, PV: v[0], CV: v[1]})
 					}
 					w.mu.Unlock()
 				}
 			}
 		}
-		if w.sc.ValDelayMs > 0 && edge == "c" && ex.Q.Qtype == dns.TypeDNSKEY {
-			d := time.Duration(w.sc.ValDelayMs) * time.Millisecond
+		if d > 0 {
 			w.delays.Add(time.Now(), d, ex.Q)
 			ex.Delay = d
 		}
@@ -154,7 +160,7 @@ func (w *world) parentHook(edge string) func(*authkit.Exchange) {
 // the authority section of every answer, glue in the additional section.
 func (w *world) childHook(z *authkit.Zone) func(*authkit.Exchange) {
 	return func(ex *authkit.Exchange) {
-		if w.sc.Child == "long" || w.sc.Child == "glueless" || w.sc.Child == "" || ex.Resp == nil || len(ex.Resp.Answer) == 0 || ex.Zone != z {
+		if w.sc.Child == "long" || w.sc.Child == "glueless" || w.sc.Child == "slowns" || w.sc.Child == "" || ex.Resp == nil || len(ex.Resp.Answer) == 0 || ex.Zone != z {
 			return
 		}
 		if ex.Q.Qtype == dns.TypeNS || ex.Q.Qtype == dns.TypeDNSKEY || ex.Q.Qtype == dns.TypeDS {
@@ -186,7 +192,7 @@ func (w *world) newChild(pz *authkit.Zone, pv, cv int, first bool) error {
 		return err
 	}
 	cut := w.n.CutFor(z, srv, w.sc.CNS, w.sc.CDS, w.dsOn())
-	if w.sc.Child == "glueless" && w.hz != nil {
+	if (w.sc.Child == "glueless" || w.sc.Child == "slowns") && w.hz != nil {
 		// a second NS whose address must be looked up (lookupV4Nss: provisional entry bounded by the cut)
 		host := fmt.Sprintf("nsc%dx%d.h.", pv, cv)
 		w.hz.AddRR(authkit.ARR(host, w.n.AllocGlue(srv), 3600))
@@ -213,6 +219,13 @@ func (w *world) newParent(pv int) (*authkit.Zone, error) {
 		return nil, err
 	}
 	cut := w.n.CutFor(z, srv, w.sc.PNS, w.sc.PDS, w.dsOn())
+	if w.sc.Child == "slowns" && w.hz != nil {
+		// p hangs directly off the root: no ancestor lease bounds its provisional entry
+		host := fmt.Sprintf("nsp%d.h.", pv)
+		w.hz.AddRR(authkit.ARR(host, w.n.AllocGlue(srv), 3600))
+		cut.NS = append(cut.NS, authkit.NSRR(z.Name, host, w.sc.PNS))
+		z.AddRR(authkit.NSRR(z.Name, host, 3600))
+	}
 	w.mu.Lock()
 	w.glueVer[cut.Glue[0].(*dns.A).A.String()] = [2]int{pv, 0}
 	w.mu.Unlock()
@@ -232,9 +245,31 @@ func build(sc *Scenario) (*world, error) {
 		w.qname = "www.g.c.p."
 	}
 	n.RootSrv.SetHook(w.parentHook("p"))
-	if sc.Child == "glueless" {
-		if w.hz, _, err = n.Delegate("h.", authkit.DelegateOpts{Signed: sc.Signed, PublishDS: sc.Signed}); err != nil {
+	if sc.Child == "glueless" || sc.Child == "slowns" {
+		var hsrv *authkit.Server
+		if w.hz, hsrv, err = n.Delegate("h.", authkit.DelegateOpts{Signed: sc.Signed, PublishDS: sc.Signed}); err != nil {
 			return nil, err
+		}
+		if sc.Child == "slowns" {
+			// the address of an un-glued NS host is slow the first time it is asked for: the lookup
+			// outlasts the referral's lease, so only the provisional entry parked during the lookup
+			// (lookupV4Nss) could keep the delegation alive -- and it is bounded by the same lease
+			lease := sc.PNS
+			if sc.CNS > lease {
+				lease = sc.CNS
+			}
+			d := time.Duration(lease)*time.Second + 400*time.Millisecond
+			var seen sync.Map
+			hsrv.SetHook(func(ex *authkit.Exchange) {
+				if ex.Q.Qtype != dns.TypeA || !strings.HasPrefix(strings.ToLower(ex.Q.Name), "ns") {
+					return
+				}
+				if _, dup := seen.LoadOrStore(strings.ToLower(ex.Q.Name), true); dup {
+					return
+				}
+				w.delays.Add(time.Now(), d, ex.Q)
+				ex.Delay = d
+			})
 		}
 	}
 	if w.pz, err = w.newParent(1); err != nil {
